@@ -130,3 +130,20 @@ CHECKS["C15"] = dict(
                  "Close discards the held lines (the statement only fixes that they are never written if the trigger never happened)"],
     require=dict(exhaustive_histories=10000, porcupine_ok=100),
 )
+
+CHECKS["C07"] = dict(
+    level="exploration",
+    level_text=("runtime allocation monitor: testing.AllocsPerRun (GC off, pools warmed, non-allocating writer) on every method of the documented "
+                "allocation-free set alone and on seeded random chains of 1-12 of them with generated arguments, for six loggers (plain, context, "
+                "timestamp hook, both, two level-filtered ones), in both the JSON and the binary_log build; filtered chains must also write nothing."),
+    technique="runtime monitoring: allocation counter (testing.AllocsPerRun) as oracle over seeded call chains, both encodings",
+    stages=lambda tier: [dict(variant="vh", cmd="c07", shards=8, timeout=3000),
+                         dict(variant="vh-bin", cmd="c07", shards=8, timeout=3000)],
+    rule=("one case = (logger, chain of method names, finalizer) measured over 300 runs after 50 warm-up runs; every method alone x 6 loggers plus "
+          "400 (quick) / 20000 (thorough) random chains per encoding whose estimated encoded size stays below 400 bytes; all non-trivial; distinct by "
+          "hash of the chain description"),
+    assumptions=["testing.AllocsPerRun's integer average: fewer than one allocation per run on average is not detected",
+                 "race detector off (it allocates); GC disabled during measurement so sync.Pool is not drained"],
+    replay=replay_index("c07"),
+    require=dict(enabled_chains=300, disabled_chains=100),
+)
